@@ -107,8 +107,9 @@ type FS struct {
 
 	// Fault injection: fail the n-th (1-based) mutating call with an error; 0 = off.
 	FailAt int
-	// FailPartial: when the injected fault hits a data write, half of the bytes are written before the
-	// error is returned (and the number of bytes written is reported), like a write interrupted by ENOSPC/EIO.
+	// FailPartial: when the injected fault hits a data write that crosses a 512-byte-aligned file offset, the bytes
+	// before the last such offset are written before the error is returned (and the number of bytes written is
+	// reported), like a write interrupted by ENOSPC/EIO; sector-granular like the tearing of the crash model.
 	FailPartial bool
 	mutations   int
 
@@ -474,6 +475,7 @@ type File struct {
 	readonly bool
 	closed   bool
 	id       int
+	wrote    bool // data was written through this handle: its Close is a fault-injection point (deferred write-out errors are reported by close)
 }
 
 var _ fs.File = (*File)(nil)
@@ -501,6 +503,12 @@ func (h *File) Close() error {
 	h.in.Handles--
 	h.fs.Stats.OpenHandles--
 	h.fs.poison(h.in, h)
+	if h.wrote {
+		// the handle is closed either way; an injected fault makes Close report an error
+		if err := h.fs.mutate(); err != nil {
+			return err
+		}
+	}
 	return nil
 }
 
@@ -553,9 +561,13 @@ func (h *File) writeAt(p []byte, off int64) (int, error) {
 	if h.readonly {
 		return 0, &os.PathError{Op: "write", Path: h.name, Err: syscall.EBADF}
 	}
+	h.wrote = true
 	if err := h.fs.mutate(); err != nil {
-		if h.fs.FailPartial && len(p) > 1 {
-			half := p[:len(p)/2]
+		// sector-granular, like the tearing of the crash model: the write is applied up to the last
+		// 512-byte-aligned file offset strictly inside it (nothing if it does not cross one)
+		cut := (off + int64(len(p)) - 1) / 512 * 512
+		if h.fs.FailPartial && cut > off {
+			half := p[:cut-off]
 			h.fs.poison(h.in, nil)
 			end := off + int64(len(half))
 			if end > int64(len(h.in.Data)) {
